@@ -115,6 +115,8 @@ structure WellFormed (g : List Rec) (d : Delivered) : Prop where
   /-- every link endpoint names an existing item class and its index range lies inside the class size -/
   links : ∀ ty e src dst, Rec.link ty e src dst ∈ g → ∀ r, r ∈ src ∨ r ∈ dst →
       ∃ sz, nodeSize g d r.node = some sz ∧ r.beg ≤ r.last ∧ r.last < sz
+  /-- every link record has the shape of its link type (one-to-one ranges of equal length, one item to one range, …) -/
+  link_shape : ∀ ty e src dst, Rec.link ty e src dst ∈ g → linkShapeOk ty src dst = true
   /-- the constraints marked delivered are exactly those handed to the ModelAPI (type and name, in order) -/
   delivered : markedDelivered g = d.cons.map (fun c => (c.ty, c.name))
   /-- and the export states the constraint group the ModelAPI uses for each delivered type -/
@@ -125,7 +127,7 @@ theorem C20_validator_sound (g : List Rec) (d : Delivered) (h : checkGraph g d =
   simp only [Bool.and_eq_true, List.all_eq_true, List.mem_range, List.contains_iff_mem, beq_iff_eq] at h
   obtain ⟨⟨⟨⟨⟨⟨⟨⟨⟨⟨h1, h2⟩, hdv⟩, h3⟩, h4⟩, h5⟩, h6⟩, hv⟩, ho⟩, h7⟩, h8⟩ := h
   refine ⟨fun i hi => hasVar_spec g i true (h1 i hi), h2, hdv, ?_, ?_, ?_, ?_, fun i hi => hasObj_spec g i (h5 i hi),
-    ?_, ?_, ?_, ?_, ?_, ?_, ?_, ?_, ?_, ?_, h7, h8⟩
+    ?_, ?_, ?_, ?_, ?_, ?_, ?_, ?_, ?_, ?_, ?_, h7, h8⟩
   · intro i hm
     have := h6 _ hm
     simpa [recOk] using this
@@ -181,14 +183,18 @@ theorem C20_validator_sound (g : List Rec) (d : Delivered) (h : checkGraph g d =
     simp only [recOk, Bool.and_eq_true, List.all_eq_true] at this
     have hk : refOk g d r = true := by
       rcases hr with hr | hr
-      · exact this.1 r hr
-      · exact this.2 r hr
+      · exact this.1.1 r hr
+      · exact this.1.2 r hr
     unfold refOk at hk
     cases hsz : nodeSize g d r.node with
     | none => simp [hsz] at hk
     | some sz =>
       simp only [hsz, Bool.and_eq_true, decide_eq_true_eq] at hk
       exact ⟨sz, rfl, hk.1, hk.2⟩
+  · intro ty e src dst hm
+    have := h6 _ hm
+    simp only [recOk, Bool.and_eq_true] at this
+    exact this.2
 
 /-- Decoding a file: every line is a JSON object of a known record shape. -/
 def Decodes : List Str → List Rec → Prop
